@@ -197,7 +197,7 @@ def run(step, repo, tier='quick', seed=0):
                 res['tool_errors'].append('no result for harness ' + m['name'])
                 continue
             res['verification_time_s'] += r['time'] or 0
-            ent = {'name': m['name'], 'target': m.get('target'), 'time_s': r['time'], 'complete': m.get('complete', True), 'result': r['result'], 'paired': bool(m.get('paired')),
+            ent = {'name': m['name'], 'target': m.get('target'), 'time_s': r['time'], 'complete': m.get('complete', True), 'result': r['result'], 'paired': bool(m.get('paired')), 'covers': m.get('covers', []),
                    'checks': m.get('checks')}
             res['harness_list'].append(ent)
             res['obligations'] += 1
